@@ -65,6 +65,9 @@ def run(sid, props):
     rc, out = sh(f"git apply {d}/patch.diff", "/repo")
     assert rc == 0, out
     res = meta.setdefault("checks", {})
+    # evidence files describe the unchanged tree: keep them out of a run on a changed one
+    shutil.rmtree("/tmp/evidence-keep", ignore_errors=True)
+    shutil.copytree("/verif/evidence", "/tmp/evidence-keep")
     try:
         for p in props:
             t0 = time.time()
@@ -76,6 +79,11 @@ def run(sid, props):
         sh("git checkout -- .", "/repo")
         rc, out = sh("git status --porcelain", "/repo")
         assert out.strip() == "", out
+        shutil.rmtree("/verif/evidence")
+        shutil.copytree("/tmp/evidence-keep", "/verif/evidence")
+        shutil.rmtree("/tmp/evidence-keep", ignore_errors=True)
+        # the generated tables must describe the restored tree again
+        sh("python3 /verif/tools/translate.py", "/verif")
     json.dump(meta, open(f"{d}/meta.json", "w"), indent=1)
 
 if __name__ == "__main__":
